@@ -24,6 +24,8 @@ fn focus_for(prop: &str) -> Vec<(Focus, &'static str, u64)> {
         "C04" => vec![(Focus::Protocol, "protocol-conversations", 60), (Focus::Sync, "sync-conversations", 20), (Focus::Value, "value-conversations", 20)],
         "C14" => vec![(Focus::Supply, "supply-conversations", 15), (Focus::Commands, "agent-command-conversations", 85)],
         "C20" => vec![(Focus::Links, "link-conversations", 100)],
+        // C06 takes from the conversations only the clauses about the lifecycle callbacks' arguments (rules `history/...`)
+        "C06" => vec![(Focus::Map, "map-conversations", 60), (Focus::Value, "value-conversations", 40)],
         _ => vec![(Focus::Protocol, "protocol-conversations", 100)],
     }
 }
@@ -172,9 +174,11 @@ fn main() {
                 out.count(&format!("first-incarnation-ended-by-{}", sum.mode));
             },
         );
-        s.finish();
+        if prop == "C05" {
+            s.finish();
+        }
     }
-    let total = s.args.budget(40_000, 2_000_000);
+    let total = if prop == "C06" { s.args.budget(10_000, 400_000) } else { s.args.budget(40_000, 2_000_000) };
     let len_max = if s.args.thorough() { 60 } else { 40 };
     let only = s.args.extra.get("only").cloned();
     for (focus, name, share) in focus_for(&prop) {
